@@ -141,8 +141,54 @@ func (eng *Engine) scanStructural(pi *PkgInfo, sd *Structural) (bad []string, si
 		}
 		return false
 	}
-	for _, f := range eng.pkgFunctions(pi) {
-		ok := allowedIn(f, sd.In)
+	// a contract-less helper that is only ever called (statically) from allowed functions, or
+	// from other such helpers, counts as part of them: extracting a few lines of an allowed
+	// function into a helper does not widen who touches the target
+	fns := eng.pkgFunctions(pi)
+	callers := map[*ssa.Function][]*ssa.Function{}
+	escapes := map[*ssa.Function]bool{} // referenced other than as the callee of a static call
+	for _, f := range fns {
+		for _, b := range f.Blocks {
+			for _, in := range b.Instrs {
+				var callee *ssa.Function
+				if ci, isCall := in.(ssa.CallInstruction); isCall {
+					callee = ci.Common().StaticCallee()
+					if callee != nil {
+						callers[callee] = append(callers[callee], f)
+					}
+				}
+				var ops []*ssa.Value
+				for _, op := range in.Operands(ops) {
+					if op == nil || *op == nil {
+						continue
+					}
+					if g, isFn := (*op).(*ssa.Function); isFn && g != callee {
+						escapes[g] = true
+					}
+				}
+			}
+		}
+	}
+	var helperOK func(f *ssa.Function, depth int) bool
+	helperOK = func(f *ssa.Function, depth int) bool {
+		if allowedIn(f, sd.In) {
+			return true
+		}
+		if depth > 3 || escapes[f] || len(callers[f]) == 0 || eng.contractFor(f) != nil || f.Parent() != nil {
+			return false
+		}
+		if f.Object() != nil && f.Object().Exported() {
+			return false
+		}
+		for _, c := range callers[f] {
+			if c != f && !helperOK(c, depth+1) {
+				return false
+			}
+		}
+		return true
+	}
+	for _, f := range fns {
+		ok := helperOK(f, 0)
 		for _, b := range f.Blocks {
 			for _, in := range b.Instrs {
 				switch sd.Kind {
